@@ -190,6 +190,120 @@ func HC03_enumLiterals() {
 	vfAssert(ok, "C03/enum-lists-every-constant-once-with-its-value")
 }
 
+// c03JSUnquote decodes a double-quoted JavaScript string literal (the escapes of ECMAScript: \" \\ \n \r
+// \t \b \f \v \0 \xHH \uHHHH, any other escaped character standing for itself).
+func c03JSUnquote(lit string) (string, bool) {
+	if len(lit) < 2 || lit[0] != '"' || lit[len(lit)-1] != '"' {
+		return "", false
+	}
+	hex := func(s string) (int, bool) {
+		v := 0
+		for i := 0; i < len(s); i++ {
+			c := s[i]
+			switch {
+			case c >= '0' && c <= '9':
+				v = v*16 + int(c-'0')
+			case c >= 'a' && c <= 'f':
+				v = v*16 + int(c-'a') + 10
+			case c >= 'A' && c <= 'F':
+				v = v*16 + int(c-'A') + 10
+			default:
+				return 0, false
+			}
+		}
+		return v, true
+	}
+	body := lit[1 : len(lit)-1]
+	var out []byte
+	for i := 0; i < len(body); i++ {
+		c := body[i]
+		if c == '"' || c == '\n' {
+			return "", false // unescaped quote or line break: not a valid literal
+		}
+		if c != '\\' {
+			out = append(out, c)
+			continue
+		}
+		i++
+		if i >= len(body) {
+			return "", false
+		}
+		switch body[i] {
+		case 'n':
+			out = append(out, '\n')
+		case 'r':
+			out = append(out, '\r')
+		case 't':
+			out = append(out, '\t')
+		case 'b':
+			out = append(out, '\b')
+		case 'f':
+			out = append(out, '\f')
+		case 'v':
+			out = append(out, '\v')
+		case '0':
+			out = append(out, 0)
+		case 'x':
+			if i+2 > len(body)-1 {
+				return "", false
+			}
+			v, ok := hex(body[i+1 : i+3])
+			if !ok {
+				return "", false
+			}
+			out = append(out, string(rune(v))...)
+			i += 2
+		case 'u':
+			if i+4 > len(body)-1 {
+				return "", false
+			}
+			v, ok := hex(body[i+1 : i+5])
+			if !ok {
+				return "", false
+			}
+			out = append(out, string(rune(v))...)
+			i += 4
+		default:
+			out = append(out, body[i])
+		}
+	}
+	return string(out), true
+}
+
+// HC03_stringEnumValues: the TypeScript literal of a string enum constant denotes, under the rules of
+// JavaScript string literals, exactly the string Go puts on the wire.
+func HC03_stringEnumValues() {
+	pkg := skelPkg()
+	named := skelNamed(pkg, "E", types.Typ[types.String])
+	values := []string{"v", "a\"b", "a\\b", "\\frac{1}{2}", "C:\\temp\\new", "a\tb", "line\nbreak", "é€", "it's", ""}
+	n := 1 + vfChoice("n", 2)
+	var members []an.EnumMember
+	for i := 0; i < n; i++ {
+		val := values[vfChoice(fmt.Sprint("value", i), len(values))]
+		members = append(members, an.EnumMember{Const: types.NewConst(0, pkg, fmt.Sprint("C", i), named, constant.MakeString(val))})
+	}
+	e := an.VfNewEnum(named, members, false)
+	raw := codeForEnum(e).Content
+	ok := true
+	for _, m := range members {
+		key := m.Const.Name() + " : "
+		idx := strings.Index(raw, key)
+		if idx < 0 {
+			ok = false
+			break
+		}
+		rest := raw[idx+len(key):]
+		if nl := strings.Index(rest, "\n"); nl >= 0 {
+			rest = rest[:nl]
+		}
+		lit := strings.TrimSuffix(strings.TrimSpace(rest), ",")
+		got, valid := c03JSUnquote(lit)
+		vfObserve("literal", lit)
+		ok = ok && valid && got == constant.StringVal(m.Const.Val())
+	}
+	vfAssert(ok, "C03/string-enum-literal-denotes-the-go-value")
+}
+
 // HC03_sameLocalName: two distinct named types never declare one TypeScript identifier twice.
 func HC03_sameLocalName() {
 	p1 := types.NewPackage("example.com/mod/a", "a")
